@@ -345,7 +345,7 @@ def util_case(s: Suite, n_src, n_dest, evenly, max_c, oracle, inst=0):
         line = f"evenly {s_list(srcs)} {s_list(dests)} {s_list(oracle)}"
     else:
         line = f"randomly {s_list(srcs)} {s_list(dests)} {'-' if max_c is None else max_c} {s_list(oracle)}"
-    s.add(line, r, ("evenly" if evenly else f"randomly:max={max_c}") + ":" + r[:2] +
+    s.add(line, r, (("evenly" + (":max_connects given (ignored)" if max_c is not None else "")) if evenly else f"randomly:max={max_c}") + ":" + r[:2] +
           (":full" if (max_c is not None and n_src == n_dest * max_c) else "") + (f":entities x{inst}" if inst else ""))
 
 
@@ -360,6 +360,8 @@ def suite_util(rng: random.Random, tier: str) -> Suite:
             for _ in range(reps):
                 oracle = [rng.randint(0, 50) for _ in range(n_src * (n_dest + 2) + 4)]
                 util_case(s, n_src, n_dest, True, None, oracle)
+                # evenly=True with an explicit max_connects: documented as "only taken into account if evenly is False"
+                util_case(s, n_src, n_dest, True, rng.choice([1, 2, 3]), oracle)
                 for max_c in (1, 2, 3, None):
                     util_case(s, n_src, n_dest, False, max_c, oracle)
                 # the same with real Entity objects from 1-3 instances of one model (coinciding entity ids)
